@@ -145,9 +145,61 @@ def _nmax(tier):
     return 14 if tier == 'quick' else 24
 
 
+def check_integer_start(case, rec):
+    """Start vectors of integer / boolean dtype (indicator vectors, occupation patterns): a legal vector is a legal vector whatever
+    its storage type. m = n, so the Krylov space of a generic start vector is the whole space and no breakdown test is involved:
+    the exponential must be exact in both branches, the lowest Ritz value is lambda_min, the Ritz vector is a unit eigenvector."""
+    n = case['n']
+    rng = np.random.default_rng(case['seed'])
+    X = rng.normal(size=(n, n)) + 1j * rng.normal(size=(n, n))
+    A = (X + X.conj().T) / 2
+    kind = case['vkind']
+    if kind == 'bool':
+        v = np.zeros(n, dtype=bool); v[rng.permutation(n)[:max(2, n // 2)]] = True
+    elif kind == 'int8':
+        v = rng.integers(5, 12, size=n).astype(np.int8) * rng.choice([-1, 1], size=n).astype(np.int8)      # sum of squares beyond 127
+    elif kind == 'int64_big':
+        v = rng.integers(3 * 10**9, 4 * 10**9, size=n).astype(np.int64)                                      # squares beyond 2^63
+    elif kind == 'uint8':
+        v = rng.integers(10, 16, size=n).astype(np.uint8)
+    else:
+        v = rng.integers(-3, 4, size=n).astype(np.int64); v[0] = 2
+    vf = v.astype(float)
+    nv = np.linalg.norm(vf)
+    lam, U = np.linalg.eigh(A)
+    comp = np.abs(U.conj().T @ vf) / nv
+    if np.min(comp) < 1e-3 or np.min(np.diff(lam)) < 1e-2:
+        rec.skip('start vector nearly orthogonal to an eigenvector / nearly degenerate spectrum')
+        return
+    v0 = v.copy()
+    nrmA = np.linalg.norm(A, 2)
+    with warnings.catch_warnings():
+        warnings.simplefilter('ignore')
+        w, Ur = ptn.eigh_krylov(lambda x: A @ x, v, n, 1)
+        require(v.tobytes() == v0.tobytes() and v.dtype == v0.dtype, 'eigh_krylov modified the start vector')
+        require(abs(w[0] - lam[0]) <= 1e-8 * max(1.0, nrmA), 'integer start vector: lowest Ritz value differs from the smallest eigenvalue at m = n',
+                got=float(w[0]), want=float(lam[0]), dtype=str(v.dtype))
+        require(abs(np.linalg.norm(Ur[:, 0]) - 1) <= 1e-8, 'integer start vector: Ritz vector is not normalised', norm=float(np.linalg.norm(Ur[:, 0])), dtype=str(v.dtype))
+        for herm in (True, False):
+            dt = [0.7j, 0.3 - 0.4j][case['seed'] % 2] / max(1.0, nrmA)
+            y = ptn.expm_krylov(lambda x: A @ x, v, dt, n, hermitian=herm)
+            ref = expm(dt * A) @ vf
+            require(np.linalg.norm(y - ref) <= 1e-8 * nv, 'integer start vector: Krylov exponential at m = n differs from the exact exponential',
+                    err=float(np.linalg.norm(y - ref)), norm=float(nv), dtype=str(v.dtype), hermitian=herm)
+    rec.label('vdtype_' + kind, 'n=%d' % n)
+    rec.nontrivial = bool(n >= 3)
+
+
+@st.composite
+def gen_integer_start(draw, tier):
+    return {'n': draw(st.integers(2, 7)), 'seed': draw(st.integers(0, 2**31 - 1)), 'vkind': draw(st.sampled_from(['bool', 'int8', 'int64_big', 'uint8', 'int64']))}
+
+
 PARTS = [
     Part('eigh', check_eigh, strategy=lambda tier: eigh_case(_nmax(tier)),
          n={'quick': 600, 'thorough': 15000}, workers={'quick': 4, 'thorough': 16}),
     Part('expm', check_expm, strategy=lambda tier: expm_case(_nmax(tier)),
          n={'quick': 600, 'thorough': 15000}, workers={'quick': 4, 'thorough': 16}),
+    Part('integer_start', check_integer_start, strategy=gen_integer_start, n={'quick': 150, 'thorough': 3000}, workers={'quick': 2, 'thorough': 8},
+         doc='start vectors of boolean / narrow integer / large integer dtype at m = n'),
 ]
